@@ -31,6 +31,8 @@ ASSUMPTIONS = [
     'in the SAME directory (Manifest.files, plain/gz; thorough every format); chain positions are then NODES and k ranges '
     'over nodes; a Manifest in directory D is needed by every query at or below D',
     'dup family: the deepest link is recorded by two MANIFEST entries in its parent (identical / disjoint hash sets)',
+    'thorough: pairs of independent broken links (second break = a line appended to a Manifest above the first broken '
+    'one); the link nearest the top must be the one named',
     'find_timestamp() is one of the queries and the FIRST call of the forward shared-loader sequence (a harmless earlier '
     'call on the same loader must not weaken later queries)',
 ]
@@ -472,6 +474,21 @@ def run_shard(spec, tier, seed, scratch):
                                   'deleg': deleg, 'dup': dup})
                 for v in vs:
                     stats.violation(v['sig'], v['case'], v['message'])
+                # thorough: a SECOND, independent broken link above the first (node k1 < k edited by hand - an IGNORE
+                # line appended - without its parent being told): whatever needs node k1 must name k1, the first
+                # broken link met from the top
+                if tier == 'thorough' and kind == 'change' and not broken_is_sib and k >= 2:
+                    from gverif.treemodel import comp_of, compress, decompress
+                    for k1 in range(1, k):
+                        t2 = t.clone()
+                        c1 = comp_of(os.path.basename(nodes[k1]))
+                        t2.files[nodes[k1]] = compress(decompress(t2.files[nodes[k1]], c1) + b'IGNORE zz-second-break\n', c1)
+                        case2 = dict(case, tree=t2.to_json(), k=k1, broken=nodes[k1], dc=False)
+                        vs2 = check_case(case2, scratch, stats)
+                        stats.case((spec, mh, sib, kind, j, k, 'second_break', k1), nontrivial=True)
+                        stats.counters['cases_two_breaks'] += 1
+                        for v in vs2:
+                            stats.violation(v['sig'], v['case'], v['message'])
     return stats
 
 
